@@ -72,13 +72,15 @@ package slug
 //@   ghost $lstatPath String = ""
 //@   ghost $lstatIsLink Bool = false
 //@   ghost $lastRemove String = ""
-//@   at-call os.Create C01,C15.unpack.file-not-through-link: $lstatPath == info.Path && ($lstatIsLink ==> $lastRemove == info.Path)
-//@   at-call os.MkdirAll C01,C15.unpack.dir-not-through-link: a0 == info.Path && a0 != Dir(info.Path) ==> $lstatPath == info.Path && ($lstatIsLink ==> $lastRemove == info.Path)
+//@   at-call os.Create C01,C15.unpack.file-not-through-link: info.Path != Abs(dst) ==> $lstatPath == info.Path && ($lstatIsLink ==> $lastRemove == info.Path)
+//@   at-call os.MkdirAll C01,C15.unpack.dir-not-through-link: a0 == info.Path && a0 != Dir(info.Path) && info.Path != Abs(dst) ==> $lstatPath == info.Path && ($lstatIsLink ==> $lastRemove == info.Path)
 // directories are only made for entries that materialise (file, directory, link), not for pax header entries
 //@   at-call os.MkdirAll C15.unpack.dirs-only-for-materialised-entries: info.Typeflag == tar.TypeDir || info.Typeflag == tar.TypeSymlink || info.Typeflag == tar.TypeReg || info.Typeflag == tar.TypeRegA
 // nothing but a link is ever removed: a directory that was recorded for the deferred restore of its mode and times is
 // still a directory then (chmod and chtimes follow links), and no file or directory is lost to a later entry
 //@   at-call os.Remove C01,C15.unpack.only-links-removed: $lstatPath == a0 && $lstatIsLink
+// the destination itself (possibly a link to the real directory) is an entry of its parent: it is never removed
+//@   at-call os.Remove C01.unpack.destination-not-removed: a0 != Abs(dst)
 // directory metadata is restored in archive order, so that for a directory recorded twice the last record wins
 //@   ghost $nextDir Int = 0
 //@   invariant loop1 C15.unpack.dir-order.inv1: $nextDir == 0
